@@ -11,6 +11,7 @@ import (
 	"os"
 	"sort"
 	"strings"
+	"time"
 
 	"github.com/ozontech/seq-db/frac"
 	"github.com/ozontech/seq-db/parser"
@@ -25,26 +26,45 @@ func (d *driver) raceCase(class string, pre [][]tlItem, racing []tlItem, field, 
 	in := map[string]any{"kind": "race", "pre": pre, "racing": racing, "field": field, "pattern": bstr(pat),
 		"lock": lock, "fill_during": fillDuring}
 	q := query{Pattern: pat}
-	var res frac.VerifC13RaceResult
-	var hist []string
-	var hash map[string]int
-	var pv any
-	func() {
-		defer func() { pv = recover() }()
+	type raceOut struct {
+		res  frac.VerifC13RaceResult
+		hist []string
+		hash map[string]int
+		pv   any
+	}
+	ch := make(chan raceOut, 1)
+	go func() { // the driver never waits for this goroutine longer than the watchdog below
+		var o raceOut
+		defer func() {
+			o.pv = recover()
+			ch <- o
+		}()
 		var tl *frac.TokenList
-		tl, hist, hash = runTokenList(1, pre)
+		tl, o.hist, o.hash = runTokenList(1, pre)
 		defer tl.Stop()
 		toks := make([][]byte, len(racing))
 		fl := make([]int, len(racing))
 		for i, it := range racing {
 			toks[i] = []byte(it.Tok)
 			fl[i] = it.FLen
-			hash[it.Tok] = 0
+			o.hash[it.Tok] = 0
 		}
-		res = frac.VerifC13SearchDuringAppend(tl, lock, fillDuring, q.token(field), toks, fl)
+		o.res = frac.VerifC13SearchDuringAppend(tl, lock, fillDuring, q.token(field), toks, fl)
 	}()
+	var o raceOut
+	select {
+	case o = <-ch:
+	case <-time.After(60 * time.Second):
+		d.w.Count("race:watchdog-skip") // a stall of the driver's own machinery is not a verdict on the code
+		return
+	}
+	res, hist, hash, pv := o.res, o.hist, o.hash, o.pv
 	if pv != nil {
 		d.w.Violate("panic:race-driver", fmt.Sprint(pv), in)
+		return
+	}
+	if res.Hung {
+		d.w.Violate("hang:find-pattern-during-append", "TokenList.FindPattern did not return within 20 s after the Append finished and every driver lock was released", in)
 		return
 	}
 	if !res.Parked {
@@ -107,36 +127,6 @@ func (d *driver) raceCase(class string, pre [][]tlItem, racing []tlItem, field, 
 func (d *driver) reloadCase(class string, tokens []string, pats []string, restart bool) {
 	sort.Strings(tokens)
 	in := map[string]any{"kind": "reload", "tokens": bs(tokens), "patterns": bs(pats), "restart": restart}
-	dir, err := os.MkdirTemp("", "verif-c13-")
-	if err != nil {
-		panic(err)
-	}
-	defer os.RemoveAll(dir)
-	fm, err := fracbuild.NewFM(dir, nil)
-	if err != nil {
-		panic(err)
-	}
-	var docs []fracbuild.Doc
-	for n, t := range tokens {
-		docs = append(docs, fracbuild.Doc{MID: uint64(1000 + n), RID: uint64(n + 1), Body: []byte(`{"n":1}`),
-			Tokens: []string{"f:" + t, "g:" + tokens[(n+1)%len(tokens)], "e:x"}})
-	}
-	if err := fracbuild.Append(fm, docs); err != nil {
-		panic(err)
-	}
-	fracbuild.Seal(fm)
-	if restart {
-		fracbuild.Close(fm)
-		if fm, err = fracbuild.NewFM(dir, nil); err != nil {
-			panic(err)
-		}
-	}
-	defer func() { fracbuild.Close(fm) }()
-	fs := fracbuild.Fracs(fm)
-	if len(fs) != 1 {
-		d.w.Violate("error:frac-count", fmt.Sprintf("%d fractions with documents", len(fs)), in)
-		return
-	}
 	var qs []query
 	var ts []parser.Token
 	for _, p := range pats {
@@ -144,18 +134,67 @@ func (d *driver) reloadCase(class string, tokens []string, pats []string, restar
 		qs = append(qs, q)
 		ts = append(ts, q.token("f"))
 	}
-	var lens []uint32
-	var out []frac.VerifC13Lookup
-	var kind string
-	var pv any
-	func() {
-		defer func() { pv = recover() }()
-		lens, out, kind = frac.VerifC13ReloadLookups(fs[0], ts)
+	type reloadOut struct {
+		lens  []uint32
+		out   []frac.VerifC13Lookup
+		kind  string
+		nfrac int
+		pv    any
+	}
+	ch := make(chan reloadOut, 1)
+	go func() { // build, seal, (restart,) lookups; the driver waits at most for the watchdog below
+		var o reloadOut
+		defer func() {
+			o.pv = recover()
+			ch <- o
+		}()
+		dir, err := os.MkdirTemp("", "verif-c13-")
+		if err != nil {
+			panic(err)
+		}
+		defer os.RemoveAll(dir)
+		fm, err := fracbuild.NewFM(dir, nil)
+		if err != nil {
+			panic(err)
+		}
+		defer func() { fracbuild.Close(fm) }()
+		var docs []fracbuild.Doc
+		for n, t := range tokens {
+			docs = append(docs, fracbuild.Doc{MID: uint64(1000 + n), RID: uint64(n + 1), Body: []byte(`{"n":1}`),
+				Tokens: []string{"f:" + t, "g:" + tokens[(n+1)%len(tokens)], "e:x"}})
+		}
+		if err := fracbuild.Append(fm, docs); err != nil {
+			panic(err)
+		}
+		fracbuild.Seal(fm)
+		if restart {
+			fracbuild.Close(fm)
+			if fm, err = fracbuild.NewFM(dir, nil); err != nil {
+				panic(err)
+			}
+		}
+		fs := fracbuild.Fracs(fm)
+		o.nfrac = len(fs)
+		if len(fs) == 1 {
+			o.lens, o.out, o.kind = frac.VerifC13ReloadLookups(fs[0], ts)
+		}
 	}()
-	if pv != nil {
-		d.w.Violate("panic:token-table-reload", fmt.Sprint(pv), in)
+	var o reloadOut
+	select {
+	case o = <-ch:
+	case <-time.After(120 * time.Second):
+		d.w.Count("reload:watchdog-skip") // a stall of the driver's own machinery is not a verdict on the code
 		return
 	}
+	if o.pv != nil {
+		d.w.Violate("panic:token-table-reload", fmt.Sprint(o.pv), in)
+		return
+	}
+	if o.nfrac != 1 {
+		d.w.Violate("error:frac-count", fmt.Sprintf("%d fractions with documents", o.nfrac), in)
+		return
+	}
+	lens, out, kind := o.lens, o.out, o.kind
 	if kind != "sealed" {
 		d.w.Violate("error:frac-kind", "fraction is "+kind+", expected sealed", in)
 		return
